@@ -5,6 +5,9 @@
  "properties": {"C04": "contract", "C19": "safety"},
  "mode": "dfcc", "enforce": "binary/binary_contract",
  "kind": "proof",
+ "variants": {"TMUL": ["-DV_OP=TMUL"], "TDIV": ["-DV_OP=TDIV"], "TMOD": ["-DV_OP=TMOD"], "TADD": ["-DV_OP=TADD"], "TSUB": ["-DV_OP=TSUB"], "TSHL": ["-DV_OP=TSHL"], "TSHR": ["-DV_OP=TSHR"], "TBAND": ["-DV_OP=TBAND"], "TBOR": ["-DV_OP=TBOR"], "TXOR": ["-DV_OP=TXOR"], "TLESS": ["-DV_OP=TLESS"], "TGREATER": ["-DV_OP=TGREATER"], "TLEQ": ["-DV_OP=TLEQ"], "TGEQ": ["-DV_OP=TGEQ"], "TEQL": ["-DV_OP=TEQL"], "TNEQ": ["-DV_OP=TNEQ"]},
+ "canary_variant": "TMUL",
+ "cbmc_flags": ["--no-simplify"], "retry_no_simplify": false,
  "timeout": 120,
  "assumes": ["operands are canonical constants of their integer type (established by cast(), which every folding path ends in; proved as a postcondition here and in EVAL.cast)",
              "signed + - * wrap (what the emitted IL does at run time); >> on signed is arithmetic"]
@@ -108,7 +111,13 @@ harness(void)
 	IN(bool, in_rsg);
 	IN(u64, in_l);
 	IN(u64, in_r);
+#ifdef V_OP
+	/* one CBMC run per operator: with a symbolic op the path merges after binary()'s switch defeat the
+	   sharing of the 64-bit multiplier/divider between code and oracle and the proof does not finish */
+	enum tokenkind op = V_OP;
+#else
 	enum tokenkind op = in_op;
+#endif
 
 	__CPROVER_assume(in_sz == 1 || in_sz == 2 || in_sz == 4 || in_sz == 8);
 	__CPROVER_assume(in_rsz == 1 || in_rsz == 2 || in_rsz == 4 || in_rsz == 8);
